@@ -243,6 +243,11 @@ func (w *world) member(rng *rand.Rand, name string, planKind string, fill int) (
 	case "until":
 		until := int64(1 + rng.Intn(4))
 		plan = func(op string, n int64) bool { return op != "store" && n <= until }
+	case "store-fails":
+		// reads work, writes do not (disk full, read-only, a remote cache refusing uploads): some or all of them
+		seed := uint64(rng.Int63())
+		all := rng.Intn(2) == 0
+		plan = func(op string, n int64) bool { return op == "store" && (all || mix(seed^uint64(n)*977)%2 == 0) }
 	}
 	mm.plan = plan
 	if plan != nil {
@@ -354,7 +359,14 @@ func sequential(c *harness.Ctx, i int) {
 		real, model = desync.NewFailoverGroup(rs...), mf
 	case "cache", "repaircache":
 		up, mup := leaf("up", 70)
-		lms, lmm := w.member(rng, "local", pk(), 35)
+		lpk := pk()
+		if rng.Intn(4) == 0 {
+			// a cache that cannot be written to: a read that reports success has filled (repaired) the cache, one
+			// that could not reports the failure
+			lpk = "store-fails"
+			plans[len(plans)-1] = lpk
+		}
+		lms, lmm := w.member(rng, "local", lpk, 35)
 		var local desync.WriteStore = lms
 		if shape == "repaircache" {
 			local = desync.NewRepairableCache(lms)
